@@ -150,7 +150,7 @@ func runC03(c *engine.Ctx) {
 			if refs := call.Referrers(); refs != nil {
 				for _, r := range *refs {
 					if cc, ok := r.(ssa.CallInstruction); ok {
-						if o := engine.CalleeObj(cc); o != nil && (o.Name() == "ReadFromUDP" || o.Name() == "ReadFrom") {
+						if _, _, _, isRd := udpRead(cc); isRd {
 							reads = true
 						}
 					}
@@ -404,11 +404,17 @@ func runC03(c *engine.Ctx) {
 				if ps.raddr != nil {
 					cl, i = engine.ResultOfCall(ps.raddr)
 				}
-				okAddr := cl != nil && i == 1 && engine.CalleeObj(cl) != nil && engine.CalleeObj(cl).Name() == "ReadFromUDP"
+				okAddr := false
+				wantN := 0
+				if cl != nil {
+					if nI, aI, _, isRd := udpRead(cl); isRd && i == aI {
+						okAddr, wantN = true, nI
+					}
+				}
 				sl, isSl := ps.payload.(*ssa.Slice)
 				okLen := false
 				if isSl && sl.High != nil {
-					if c2, i2 := engine.ResultOfCall(sl.High); c2 == cl && i2 == 0 && sl.Low == nil {
+					if c2, i2 := engine.ResultOfCall(sl.High); c2 == cl && i2 == wantN && sl.Low == nil {
 						okLen = true
 					}
 				}
@@ -520,7 +526,7 @@ func runC03(c *engine.Ctx) {
 					return
 				}
 				o := engine.CalleeObj(call)
-				if o == nil || !(o.Name() == "ReadFromUDP" || o.Name() == "Read") || engine.LoopHeader(call.Block()) == nil {
+				if o == nil || engine.LoopHeader(call.Block()) == nil {
 					return
 				}
 				tup, ok := call.Type().(*types.Tuple)
@@ -528,6 +534,11 @@ func runC03(c *engine.Ctx) {
 					return
 				}
 				errIdx := tup.Len() - 1
+				if _, _, eI, isRd := udpRead(call); isRd {
+					errIdx = eI
+				} else if o.Name() != "Read" {
+					return
+				}
 				n8++
 				c.AllPaths(fmt.Sprintf("%s>read-loop-exit", p.FuncName(g)), engine.PathCheck{Fn: g, From: call, KeepLoopFacts: true,
 					Sink: func(x ssa.Instruction) bool { return engine.IsReturn(x) || x == ssa.Instruction(call) },
@@ -656,6 +667,9 @@ func runC03(c *engine.Ctx) {
 	checkLegacyConversion(c, "R10")
 	checkDeadlineRearmed(c, "R12")
 	checkNoResend(c, "R13")
+	// ---- R14 the per-user socket table of the client-side forwarder is shared with its reply pumps (shared with C16.R30) ----
+	checkLocalGuardedMaps(c, "R14")
+	checkFullBufferVerdict(c, "R15")
 
 	// ---- R11 a failed write retires the work connection ----
 	c.Rule("R11", "server udp proxy: the goroutine that writes user datagrams to the work connection closes that connection when a write fails — only the reader asks for a replacement, and it notices nothing as long as its own reads succeed")
@@ -840,4 +854,163 @@ func checkNoResend(c *engine.Ctx, rule string) {
 			}}, "a fresh datagram per hand-over")
 	}
 	c.Floor(n, 1)
+}
+
+// udpRead classifies a call as a datagram read and says which results are the length, the source address and the error:
+// ReadFromUDP / ReadFrom themselves, or a small repository helper that performs exactly one such read into the buffer it
+// is given and returns the read's own results (possibly with extra verdicts such as "oversized" in between).
+func udpRead(call ssa.CallInstruction) (nIdx, addrIdx, errIdx int, ok bool) {
+	o := engine.CalleeObj(call)
+	if o == nil {
+		return 0, 0, 0, false
+	}
+	if o.Name() == "ReadFromUDP" || o.Name() == "ReadFrom" {
+		return 0, 1, 2, true
+	}
+	cf := engine.CalleeFn(call)
+	if cf == nil || len(cf.Blocks) == 0 || cf.Pkg == nil || !engine.IsRepoPkg(cf.Pkg.Pkg.Path()) {
+		return 0, 0, 0, false
+	}
+	var inner *ssa.Call
+	cnt := 0
+	engine.ForEachInstr(cf, func(in ssa.Instruction) {
+		if c2, isCall := in.(*ssa.Call); isCall {
+			if o2 := engine.CalleeObj(c2); o2 != nil && (o2.Name() == "ReadFromUDP" || o2.Name() == "ReadFrom") {
+				inner = c2
+				cnt++
+			}
+		}
+	})
+	if cnt != 1 {
+		return 0, 0, 0, false
+	}
+	nIdx, addrIdx, errIdx = -1, -1, -1
+	engine.ForEachInstr(cf, func(in ssa.Instruction) {
+		r, isRet := in.(*ssa.Return)
+		if !isRet {
+			return
+		}
+		for i := range r.Results {
+			if cl, j := engine.ResultOfCall(engine.Unwrap(spilledResult(r, i))); cl == inner {
+				switch j {
+				case 0:
+					nIdx = i
+				case 1:
+					addrIdx = i
+				case 2:
+					errIdx = i
+				}
+			}
+		}
+	})
+	if nIdx < 0 || errIdx < 0 {
+		return 0, 0, 0, false
+	}
+	return nIdx, addrIdx, errIdx, true
+}
+
+// checkFullBufferVerdict (R15): a read that fills its whole buffer may have been cut off, so a forwarder that drops
+// "n == len(buf)" datagrams as oversized must read into a buffer LARGER than the largest datagram it accepts — one spare
+// byte tells a datagram of exactly the configured packet size from a longer one. Every buffer handed to a read whose
+// length result is compared with the buffer's length comes from GetBuf(size + k), k ≥ 1.
+func checkFullBufferVerdict(c *engine.Ctx, rule string) {
+	c.Rule(rule, "in the udp tunnel path, wherever the length returned by a datagram read is compared with the length of the buffer it was read into (an 'oversized' verdict), the buffer was obtained with pool.GetBuf(size + k) with a constant k ≥ 1 at every call site: a datagram of exactly the configured size is not mistaken for a truncated one")
+	p := c.P
+	n := 0
+	for _, f := range p.RepoFuncs() {
+		if f.Pkg == nil || !(strings.HasSuffix(f.Pkg.Pkg.Path(), "/pkg/proto/udp") || strings.HasSuffix(f.Pkg.Pkg.Path(), "/client/proxy") || strings.HasSuffix(f.Pkg.Pkg.Path(), "/client/visitor") || strings.HasSuffix(f.Pkg.Pkg.Path(), "/server/proxy")) {
+			continue
+		}
+		f := f
+		engine.ForEachInstr(f, func(in ssa.Instruction) {
+			call, ok := in.(*ssa.Call)
+			if !ok {
+				return
+			}
+			nIdx, _, _, isRd := udpRead(call)
+			if !isRd {
+				return
+			}
+			// the buffer operand and the function in which n is compared with len(buffer)
+			var bufArg ssa.Value
+			compared := false
+			lenOf := func(v ssa.Value, buf ssa.Value) bool {
+				lc, ok := engine.Unwrap(v).(*ssa.Call)
+				if !ok {
+					return false
+				}
+				b, ok := lc.Call.Value.(*ssa.Builtin)
+				return ok && b.Name() == "len" && (lc.Call.Args[0] == buf || engine.SameExpr(lc.Call.Args[0], buf))
+			}
+			scan := func(g *ssa.Function, rd *ssa.Call, rdN int, buf ssa.Value) {
+				engine.ForEachInstr(g, func(x ssa.Instruction) {
+					bo, ok := x.(*ssa.BinOp)
+					if !ok || (bo.Op != token.EQL && bo.Op != token.GEQ && bo.Op != token.NEQ && bo.Op != token.LSS) {
+						return
+					}
+					isN := func(v ssa.Value) bool { cl, i := engine.ResultOfCall(engine.Unwrap(v)); return cl == rd && i == rdN }
+					if (isN(bo.X) && lenOf(bo.Y, buf)) || (isN(bo.Y) && lenOf(bo.X, buf)) {
+						compared = true
+					}
+				})
+			}
+			if cf := engine.CalleeFn(call); cf != nil && len(cf.Blocks) > 0 {
+				// a wrapper: the comparison sits inside, on its buffer parameter
+				var inner *ssa.Call
+				engine.ForEachInstr(cf, func(x ssa.Instruction) {
+					if c2, ok := x.(*ssa.Call); ok {
+						if _, _, _, r := udpRead(c2); r && (engine.CalleeFn(c2) == nil || len(engine.CalleeFn(c2).Blocks) == 0) {
+							inner = c2
+						}
+					}
+				})
+				if inner == nil {
+					return
+				}
+				ia := engine.CallArgs(inner)
+				if len(ia) < 2 {
+					return
+				}
+				scan(cf, inner, 0, ia[1])
+				if pr, ok := ia[1].(*ssa.Parameter); ok {
+					for i, q := range cf.Params {
+						if q == pr && i < len(call.Call.Args) {
+							bufArg = call.Call.Args[i]
+						}
+					}
+				}
+			} else {
+				a := engine.CallArgs(call)
+				if len(a) < 2 {
+					return
+				}
+				bufArg = a[1]
+				if _, isParam := bufArg.(*ssa.Parameter); isParam {
+					return // a wrapper's own read: judged at the wrapper's call sites
+				}
+				scan(f, call, nIdx, bufArg)
+			}
+			if !compared || bufArg == nil {
+				return
+			}
+			n++
+			spare := false
+			src := engine.Provenance(bufArg, engine.ProvOpts{})
+			for cl := range src.CallIns {
+				if calleeIs(cl, "golib/pool", "GetBuf") {
+					if bo, ok := engine.Unwrap(cl.Call.Args[0]).(*ssa.BinOp); ok && bo.Op == token.ADD {
+						if k, ok := engine.ConstInt(bo.Y); ok && k >= 1 {
+							spare = true
+						}
+						if k, ok := engine.ConstInt(bo.X); ok && k >= 1 {
+							spare = true
+						}
+					}
+				}
+			}
+			c.Check(spare, p.FuncName(f)+">full-buffer-verdict", call.Pos(), 2, nil,
+				"the buffer of a read whose result is judged by 'n == len(buf)' has a spare byte beyond the configured packet size (otherwise a datagram of exactly that size is dropped as oversized)")
+		})
+	}
+	_ = n
 }
